@@ -1,8 +1,8 @@
 (* Model of the codecs on the way of a file name between the aioftp client and server (C08):
      client  'VERB ' + str(path)                      (client.py:702,726,737,786,794,840,916..1051)
      server  parse_command + PurePosixPath(rest)      (server.py:860-872; Model/Framing.v)
-     server  PWD reply  f'"{cwd}"'                    (server.py:1105-1109)  -- quotes NOT doubled
-     client  parse_directory_response                 (client.py:313-340)
+     server  PWD reply  quote + str(cwd) with every quote doubled + quote   (server.py:1116-1121)
+     client  parse_directory_response (undoubles)     (client.py:313-341)
      server  build_mlsx_string / client parse_mlsx_line (name = everything after the first space)
      client  stat(): parse_mlsx_line(info[1].lstrip())
      server  build_list_string / client parse_list_line_unix name column (s[12:].strip())
@@ -26,22 +26,29 @@ Definition server_arg (line : text) : option (text * ppath) :=
   end.
 
 (* ---- PWD ---- *)
-Definition pwd_info (cwd : ppath) : text := QUOTE :: to_str cwd ++ [QUOTE].
+(* Server.pwd:  directory = str(cwd).replace(<quote>, <quote><quote>);  info = <quote> + directory + <quote>
+   (str.replace with a one-character pattern: every occurrence, left to right) *)
+Definition dbl (s : text) : text :=
+  flat_map (fun c => if c =? QUOTE then [QUOTE; QUOTE] else [c]) s.
 
-(* the for-loop of parse_directory_response; q = seq_quotes, acc = directory reversed.
-   As written: with seq_quotes >= 3 a following character is appended and the counter is
-   NOT reset; quotes pending at the end of the string are dropped. *)
+Definition pwd_info (cwd : ppath) : text := QUOTE :: dbl (to_str cwd) ++ [QUOTE].
+
+(* the for-loop of parse_directory_response; q = seq_quotes, acc = directory.
+     if ch is a quote: seq_quotes += 1
+     else: directory += quote * (seq_quotes // 2)
+           if seq_quotes % 2 == 1: seq_quotes = 0; break
+           seq_quotes = 0; directory += ch
+   after the loop (also after the break, where seq_quotes is 0):
+     directory += quote * (seq_quotes // 2) *)
 Fixpoint pdr (s : text) (start : bool) (q : nat) (acc : text) : text :=
   match s with
-  | [] => rev acc
+  | [] => acc ++ repeat QUOTE (Nat.div2 q)
   | ch :: r =>
       if negb start then pdr r (ch =? QUOTE) q acc
       else if ch =? QUOTE then pdr r true (S q) acc
-      else match q with
-           | 1%nat => rev acc                                   (* break *)
-           | 2%nat => pdr r true O (ch :: QUOTE :: acc)
-           | _ => pdr r true q (ch :: acc)
-           end
+      else let acc' := acc ++ repeat QUOTE (Nat.div2 q) in
+           if Nat.odd q then acc'                                (* break *)
+           else pdr r true O (acc' ++ [ch])
   end.
 
 Definition parse_directory_response (s : text) : ppath := parse (pdr s false O []).
@@ -50,17 +57,19 @@ Definition parse_directory_response (s : text) : ppath := parse (pdr s false O [
 Definition build_mlsx (facts : list (text * text)) (name : text) : text :=
   flat_map (fun kv => fst kv ++ [EQS] ++ snd kv ++ [SEMI]) facts ++ [SP] ++ name.
 
-Definition parse_mlsx_line (s : text) : ppath * list (text * text) :=
+(* None = ValueError: the line has no space, or nothing after it (no pathname) *)
+Definition parse_mlsx_line (s : text) : option (ppath * list (text * text)) :=
   let line := rstrip s in
-  let '(facts_found, _, name) := partition SP line in
-  (parse name,
-   map (fun fact => let '(k, _, v) := partition EQS fact in (lower k, v))
-       (split_on SEMI (removelast facts_found))).
+  let '(facts_found, sep, name) := partition SP line in
+  if negb sep || match name with [] => true | _ => false end then None else
+  Some (parse name,
+        map (fun fact => let '(k, _, v) := partition EQS fact in (lower k, v))
+            (split_on SEMI (removelast facts_found))).
 
-(* Client.stat: name, info = self.parse_mlsx_line(info[1].lstrip()); None = IndexError *)
+(* Client.stat: name, info = self.parse_mlsx_line(info[1].lstrip()); None = IndexError / ValueError *)
 Definition stat_parse (info : list text) : option (ppath * list (text * text)) :=
   match info with
-  | _ :: l1 :: _ => Some (parse_mlsx_line (lstrip l1))
+  | _ :: l1 :: _ => parse_mlsx_line (lstrip l1)
   | _ => None
   end.
 
@@ -71,7 +80,8 @@ Definition build_list (mode nlink size mtime name : text) : text :=
   join [SP] [mode; nlink; none4; none4; size; mtime; name].
 
 (* parse_list_line_unix as far as the name column is concerned: (type char, name column).
-   None = ValueError/IndexError (the caller tries the next parser).  Not modelled: the
+   None = ValueError/IndexError (the caller tries the next parser; an empty name column is a
+   ValueError).  Not modelled: the
    symlink branch (type 'l': None here), parse_unix_mode and parse_ls_date raising. *)
 Definition list_name (line : text) : option (Z * text) :=
   let s := rstrip line in
@@ -90,7 +100,8 @@ Definition list_name (line : text) : option (Z * text) :=
     match index_of SP s4 with None => None | Some i4 =>
     if negb (str_isdigit (firstn i4 s4)) then None else
     let s5 := lstrip (skipn i4 s4) in
-    Some (t, strip (skipn 12 s5))
+    let n := strip (skipn 12 s5) in
+    match n with [] => None | _ => Some (t, n) end
     end end end end
   end.
 
@@ -118,10 +129,17 @@ Definition run_names (fn : Z) (a : sx) : sx :=
   | 52 => sx_of_text (pwd_info (parse s0))
   | 53 => sx_of_ppath (parse_directory_response s0)
   | 54 => sx_of_text (build_mlsx (facts_of_sx (nth_sx 0 a)) s1)
-  | 55 => let '(p, f) := parse_mlsx_line s0 in L [sx_of_ppath p; sx_of_facts f]
-  | 56 => match stat_parse (texts_of_sx (nth_sx 0 a)) with
+  | 55 => match parse_mlsx_line s0 with
           | Some (p, f) => sx_ok (L [sx_of_ppath p; sx_of_facts f])
-          | None => sx_err 3
+          | None => sx_err 5
+          end
+  | 56 => match texts_of_sx (nth_sx 0 a) with
+          | _ :: _ :: _ =>
+              match stat_parse (texts_of_sx (nth_sx 0 a)) with
+              | Some (p, f) => sx_ok (L [sx_of_ppath p; sx_of_facts f])
+              | None => sx_err 5
+              end
+          | _ => sx_err 3
           end
   | 57 => sx_of_text (build_list s0 s1 (text_of_sx (nth_sx 2 a)) (text_of_sx (nth_sx 3 a))
                                  (text_of_sx (nth_sx 4 a)))
